@@ -233,6 +233,9 @@ class Frame:
         self.cells = {}
 
 
+_TRACE_CALLS = bool(__import__("os").environ.get("MIRSYM_TRACE_CALLS"))
+
+
 class Interp:
     def __init__(self, prog: MirProgram, ctx: PathCtx, models, max_steps=400000):
         self.prog, self.ctx, self.models = prog, ctx, models
@@ -1029,6 +1032,9 @@ class Interp:
         return None
 
     def call(self, fr, func: str, args, dest_ty, aops=None):
+        if _TRACE_CALLS:
+            import sys as _sys
+            print("CALL", strip_generics(func)[:140], file=_sys.stderr)
         # indirect call through an operand:  move _5(args)
         if func.startswith(("move ", "copy ")):
             fv = self.eval_operand(fr, (func.split(" ", 1)[0], __import__("verifkit.mirsym.parser", fromlist=["parse_place"]).parse_place(func.split(" ", 1)[1])))
